@@ -58,7 +58,7 @@ def main():
                                     capture_output=True, text=True, timeout=7200)
                 res["tests_rc"] = rt.returncode
                 res["tests_tail"] = rt.stdout.strip().splitlines()[-1:] if rt.stdout else []
-        props = [p for p in (a.props or meta["property"]).split(",") if p]
+        props = [p for p in (a.props or meta.get("check_props") or meta["property"]).split(",") if p]
         res["checks"] = {}
         for p in props:
             e2 = dict(os.environ, JSIM_REPO=wt, JSIM_OUT=out, VERIF_SEED=a.seed, PYTHONWARNINGS="ignore")
